@@ -3,6 +3,7 @@ import PM.Step
 import PM.Transform
 import Proofs.StepToks
 import Proofs.Marks
+import Proofs.FlatInsertCore
 namespace PM
 
 /-! ### step maps of one and two ranges, read forwards and backwards -/
@@ -111,26 +112,9 @@ theorem elem_kids_norm (pre : List Node) (ty : TypeId) (a : Attrs) (m : Marks) (
 theorem flatInsert_norm (S : Schema) (ins : List Node) (parent : Option TypeId) (level : List Node)
     (d idx : Nat) (c : List Node) (hn : fnorm level = true) (hins : fnorm ins = true)
     (h : flatInsert S ins parent level d idx = .ok (some c)) : fnorm c = true := by
-  have go : ∀ c, (match fcut level 0 d, fcut level d (fsize level) with
-      | .ok l, .ok r => (.ok (some (fappend (fappend l ins) r)) : Res (Option (List Node)))
-      | .error e, _ => .error e
-      | _, .error e => .error e) = .ok (some c) → fnorm c = true := by
-    intro c hc
-    split at hc
-    · rename_i l r hl hr
-      simp at hc; subst hc
-      exact fappend_norm _ _ (fappend_norm _ _ (fcut_norm level l 0 d hn hl) hins)
-        (fcut_norm level r d _ hn hr)
-    · simp at hc
-    · simp at hc
-  unfold flatInsert at h
-  simp only at h
-  split at h
-  · exact go c h
-  · split at h
-    · simp at h
-    · exact go c h
-    · simp at h
+  obtain ⟨l, r, hl, hr, rfl⟩ := flatInsert_ok_cuts h
+  exact fappend_norm _ _ (fappend_norm _ _ (fcut_norm level l 0 d hn hl) hins)
+    (fcut_norm level r d _ hn hr)
 
 theorem insertInto_norm_aux (S : Schema) (ins : List Node) (hins : fnorm ins = true) :
     ∀ (rest : List Node) (parent : Option TypeId) (level : List Node) (d0 idx d oa ob : Nat)
@@ -169,7 +153,8 @@ theorem insertAt_norm (S : Schema) (sl out : Slice) (pos : Nat) (frag : List Nod
     (hs : fnorm sl.content = true) (hf : fnorm frag = true)
     (h : sl.insertAt S pos frag = .ok (some out)) :
     fnorm out.content = true := by
-  unfold Slice.insertAt at h
+  rw [insertAt_of_le (insertAt_ok h).1] at h
+  unfold Slice.insertAtIn at h
   split at h
   · rename_i c hc
     simp at h; subst h
@@ -265,7 +250,8 @@ theorem insertAt_toks' (S : Schema) (sl ins : Slice) (pos : Nat) (frag : List No
     (hp : (pos : Int) ≤ sl.size)
     (h : sl.insertAt S pos frag = .ok (some ins)) :
     ins.toks = sl.toks.take pos ++ ftoks frag ++ sl.toks.drop pos := by
-  unfold Slice.insertAt at h
+  rw [insertAt_of_le (insertAt_ok h).1] at h
+  unfold Slice.insertAtIn at h
   split at h
   · rename_i c hc
     simp at h; subst h
